@@ -851,6 +851,11 @@ func (g *Gen) exprOf(typ string, depth int) *GExpr {
 			return mkInfix(op, g.exprOf("monetary", depth-1), g.exprOf("monetary", depth-1))
 		}
 	case "portion":
+		if g.r.Chance(1, 14) {
+			// a portion written over zero, as a plain value: reported as a bad portion, never a crash
+			n := int64(g.r.Intn(4))
+			return &GExpr{Kind: XRatio, Text: fmt.Sprintf("%d/0", n), Num: bi(n), Den: bi(0)}
+		}
 		if g.r.Chance(7, 10) {
 			d := int64(1 + g.r.Intn(8))
 			n := int64(g.r.Intn(int(d) + 1))
